@@ -555,11 +555,15 @@ def dir_ops(scn, addr, tgt, rng, want_success):
     add(("DirectoryNodeHandler", "POST", "mkdir"), "POST", U + "?t=mkdir", t="mkdir", modifying=False)
     # named creation
     n9 = scn.newname("m")
-    add(("DirectoryNodeHandler", "POST", "mkdir"), "POST", U + "?t=mkdir&name=" + q(n9), t="mkdir", name=n9)
+    dfmt = rng.choice(["", "&format=sdmf", "&format=mdmf"])       # the new directory's mutable type
+    add(("DirectoryNodeHandler", "POST", "mkdir"), "POST", U + "?t=mkdir&name=" + q(n9) + dfmt, t="mkdir", name=n9)
     n10 = scn.newname("mc")
     kids = {"k_imm": ["filenode", {"ro_uri": scn.imm_cap}]}
-    add(("DirectoryNodeHandler", "POST", "mkdir-with-children"), "POST", U + "?t=mkdir-with-children&name=" + q(n10),
+    add(("DirectoryNodeHandler", "POST", "mkdir-with-children"), "POST", U + "?t=mkdir-with-children&name=" + q(n10) + rng.choice(["", "&format=sdmf", "&format=mdmf"]),
         json.dumps(kids).encode(), t="mkdir-with-children", name=n10, kids=[("k_imm", scn.imm_cap)])
+    n10b = scn.newname("me")
+    add(("DirectoryNodeHandler", "POST", "mkdir-with-children"), "POST", U + "?t=mkdir-with-children&name=" + q(n10b),
+        b"{}", t="mkdir-with-children", name=n10b)
     n11 = scn.newname("mi")
     add(("DirectoryNodeHandler", "POST", "mkdir-immutable"), "POST", U + "?t=mkdir-immutable&name=" + q(n11),
         json.dumps(kids).encode(), t="mkdir-immutable", name=n11, kids=[("k_imm", scn.imm_cap)])
@@ -738,6 +742,18 @@ def do_request(run, scn, si, addr, op, presented, expect_writeable, tgt_desc):
         ctx.count("shares-added-by-repair-of-immutable-object-through-read-cap", len(legit))
         new_in_old = [k for k in new_in_old if k not in legit]
     touched = bool(changed or new_in_old)
+    if not expect_writeable and orphans:
+        # "... is refused and changes NOTHING on the grid": a refused request must not leave new objects behind either
+        # (shares of a storage index that did not exist before).  Known finding: an upload with format=sdmf|mdmf creates
+        # the new mutable file BEFORE asking the parent directory to link it (ReplaceMeMixin: create_mutable_file, then
+        # set_node), so that class leaves an orphan mutable file; everything else checks the parent first.
+        if m.get("mutable_format") and op["key"][2] in ("", "upload") and op["key"][0] in ("PlaceHolderNodeHandler", "FileNodeHandler", "DirectoryNodeHandler"):
+            okind = "refused-upload-leaves-orphan-mutable-file"
+        else:
+            okind = "refused-request-leaves-new-object-on-grid:%s-%s-t=%s" % (op["key"][0], meth, t)
+        ctx.oracle_fail(okind,
+                        "%s %s through %s was answered %s and left %d new storage index(es) with share files on the servers" % (meth, op["key"], addr.kind, resp.status, len(orphans)),
+                        case=case, expected="no new share files anywhere", observed=sorted(orphans)[:4])
     if not expect_writeable:
         # ---- the property, evaluated directly
         if touched:
